@@ -100,6 +100,7 @@ class MWorld:
         self.writes = [dict() for _ in range(nconn)]
         self.base = [dict() for _ in range(nconn)]      # name -> serial the write was computed from
         self.readcur = [dict() for _ in range(nconn)]   # name -> serial at declaration
+        self.saved = [dict() for _ in range(nconn)]     # name -> value held by the transaction's latest savepoint
         self.wid = 0
         self.labels = set()
         self.stale_reads = 0
@@ -149,6 +150,7 @@ class MWorld:
     def boundary(self, c):
         self.snap[c] = len(self.history)
         self.writes[c], self.base[c], self.readcur[c] = {}, {}, {}
+        self.saved[c] = {}
 
     def open(self, c):
         self.conns[c] = self.db.open(self.tms[c])
@@ -192,8 +194,12 @@ class MWorld:
             nme = op[2]
             if nme in self.writes[c] and nme != ROOT:
                 conn.root()[nme]._p_invalidate()
-                del self.writes[c][nme]
-                self.base[c].pop(nme, None)
+                if nme in self.saved[c]:
+                    # (what a savepoint has taken is part of the transaction: the object is read back from there)
+                    self.writes[c][nme] = dict(self.saved[c][nme])
+                else:
+                    del self.writes[c][nme]
+                    self.base[c].pop(nme, None)
                 self.labels.add('change-discarded')
         elif k == 'readcurrent':
             nme = op[2]
@@ -234,6 +240,7 @@ class MWorld:
         elif k == 'savepoint':
             # a savepoint changes nothing observable; the commit then takes the savepoint path
             self.tms[c].savepoint()
+            self.saved[c] = {n_: dict(v) for n_, v in self.writes[c].items()}
             self.labels.add('savepoint')
         elif k == 'stall':
             # the clock stops: following transaction ids differ by one tick only
